@@ -215,8 +215,26 @@ def prop_reg(case, stats):
     res = guard(op.call, case.get('form'), case.get('params', {}), *objs)
     outs = as_tuple(res)
     check_reg(case, outs, objs, P, stats, what)
-    if op.inplace and outs[0] is not objs[0]:
-        raise Violation('%s: the in-place operator did not return its left operand' % what)
+    if op.inplace:
+        if outs[0] is not objs[0]:
+            raise Violation('%s: the in-place operator did not return its left operand' % what)
+        return
+    # NumPy returns new arrays for all of these operations: no result may share memory with an argument, and an in-place
+    # update of a result must leave the arguments untouched
+    snaps = [np.array(o.data, copy=True) if isinstance(o, UTPM) else (np.array(o, copy=True) if isinstance(o, np.ndarray) else None) for o in objs]
+    for y in outs:
+        if not isinstance(y, UTPM):
+            continue
+        for o in objs:
+            od = o.data if isinstance(o, UTPM) else o
+            if isinstance(od, np.ndarray) and np.shares_memory(y.data, od):
+                raise Violation('%s: the result shares memory with an argument (NumPy returns a new array)' % what)
+        if y.data.size and y.data.flags.writeable:
+            y.data[...] = 77
+    for o, sn in zip(objs, snaps):
+        od = o.data if isinstance(o, UTPM) else o
+        if sn is not None and not sh._eq(od, sn):
+            raise Violation('%s: an in-place update of the result changed an argument' % what)
 
 
 def _arrs(case):
@@ -454,7 +472,14 @@ def prop_shape(case, stats):
         r = reffn(m[0, p, ...])
         if p == 0:
             cmp_meta(y, r, what)
-        cmp_value(y.data[0, p], r, ops.EXACT, '%s direction %d' % (what, p), stats)
+        if case.get('nonfinite'):
+            got, r_ = np.asarray(y.data[0, p]), np.asarray(r)
+            if got.shape != r_.shape or not sh._eq(got, r_):
+                raise Violation('%s direction %d: zeroth coefficient %r, NumPy gives %r (operand with inf / nan entries)'
+                                % (what, p, got.ravel()[:6].tolist(), r_.ravel()[:6].tolist()))
+            stats.event('value:bitwise-equal')
+        else:
+            cmp_value(y.data[0, p], r, ops.EXACT, '%s direction %d' % (what, p), stats)
 
 
 # operand dtypes of the shape family: data movement keeps every dtype; reductions keep complex and integers exact
@@ -464,6 +489,11 @@ SHAPE_DTYPES = {'getitem': MOVE_DTYPES, 'reshape': MOVE_DTYPES, 'transpose': MOV
                 'construct': ['complex128', 'int64', 'float32'], 'neg': ['complex128', 'int64', 'float32'],
                 'sum': ['complex128', 'int64'], 'trace': ['complex128', 'int64'], 'fft': ['int64'], 'ifft': ['int64'],
                 'symvec': ['complex128'], 'vecsym': ['complex128']}
+
+
+# operations that only move entries (no arithmetic on them): inf / nan entries must arrive like in NumPy
+PURE_MOVEMENT = {'getitem', 'reshape', 'transpose', 'tile', 'diag', 'triu', 'tril', 'symvec', 'vecsym', 'neg', 'conj', 'real', 'imag',
+                 'construct'}
 
 
 def _cast(x, dt):
@@ -489,9 +519,11 @@ def _shape_cases(strategy, kind, name=None):
         case = dict(case)
         case.pop('write', None)
         case['c10kind'] = kind
-        if dts and k < 2 * len(dts) and k % 2 == 0:
+        if dts and k < 2 * len(dts) and k % 2 == 0 and not case.get('nonfinite'):
             case['x'] = _cast(case['x'], dts[k // 2])
         return case
+    if (name or kind) in PURE_MOVEMENT:
+        strategy = sh.with_nonfinite(strategy, also_value=False)
     return st.tuples(strategy, st.integers(0, max(1, 3 * len(dts)))).map(f)
 
 
@@ -563,7 +595,10 @@ def cmp_cases(draw, opname, kinds):
     else:
         y0 = draw(st.one_of(grid, grid.map(np.float64), st.sampled_from([0, 1, 2])))
     # x0 = y0 (broadcast) + delta with a drawn outcome pattern
-    pattern = draw(st.sampled_from(['all-less', 'all-greater', 'all-equal', 'mixed', 'one-off', 'one-off', 'le-mixed', 'ge-mixed']))
+    pattern = draw(st.sampled_from(['all-less', 'all-greater', 'all-equal', 'mixed', 'one-off', 'one-off', 'le-mixed', 'ge-mixed',
+                                    'near-ulp', 'near-ulp', 'near-rel', 'near-rel', 'tiny-vs-zero']))
+    if pattern == 'tiny-vs-zero':
+        y0 = np.zeros_like(np.asarray(y0, dtype=float)) if other != 'S' else draw(st.sampled_from([0.0, 0, np.float64(0.0)]))
     if other == 'U':
         yb = np.broadcast_to(y0.reshape((P,) + (1,) * (len(full) - len(ys)) + tuple(ys)), (P,) + tuple(full))
     else:
@@ -580,6 +615,16 @@ def cmp_cases(draw, opname, kinds):
         x0 = ymax + draw(st.sampled_from([0.5, 1.0, 0.25]))
     elif pattern == 'all-equal':
         x0 = ymin + 0.0
+    elif pattern in ('near-ulp', 'near-rel', 'tiny-vs-zero'):
+        # NEAR ties: 1 ulp apart, a relative 1e-9 .. 1e-6 apart, tiny values against 0 - exact comparison semantics
+        base = np.array(np.broadcast_to(ymin, xfull), dtype=float)
+        which = np.array(draw(st.lists(st.sampled_from([-1, 0, 1]), min_size=n, max_size=n)), dtype=float).reshape(xfull)
+        if pattern == 'near-ulp':
+            x0 = np.where(which == 0, base, np.nextafter(base, base + which))
+        else:
+            eps = np.array(draw(st.lists(st.sampled_from([1e-9, 1e-8, 1e-7, 1e-6, 1e-12]), min_size=n, max_size=n))).reshape(xfull)
+            tiny = np.array(draw(st.lists(st.sampled_from([1e-9, 1e-300, 1e-12, 5e-324]), min_size=n, max_size=n))).reshape(xfull)
+            x0 = np.where(base == 0, which * tiny, base * (1 + which * eps))
     else:
         choice = {'mixed': [-0.5, 0.0, 0.5], 'le-mixed': [-0.5, 0.0], 'ge-mixed': [0.0, 0.5],
                   'one-off': [draw(st.sampled_from([-0.5, 0.5, 0.0]))]}[pattern]
@@ -609,6 +654,8 @@ def cmp_cases(draw, opname, kinds):
         case['steered'] = steered
     # operand dtypes and memory layouts: all grid values and offsets are multiples of 1/4, so 4*x is integral
     dt = draw(st.sampled_from([None, None, None, 'int64', 'int32', 'float32', 'complex128']))
+    if pattern in ('near-ulp', 'near-rel', 'tiny-vs-zero'):
+        dt = None
     if dt in ('int64', 'int32'):
         case['x'] = np.round(case['x'] * 4).astype(dt)
         v = case['y']['v']
@@ -1067,6 +1114,11 @@ def buckets(tier):
     for name, op in ops.REG.items():
         heavy = op.family == 'linalg'
         add('a:' + name, op.cases, prop_reg, op.n[0], op.n[1], nt_reg, cls_reg, 3.0 if heavy else 1.0)
+        if name in ops.ELEM:
+            # complex data and tiny magnitude base points get their own buckets (guaranteed volume per function)
+            if name in ops.CELEM:
+                add('a:%s:complex' % name, (lambda name=name: ops.elem_cases(name, 'complex')), prop_reg, 40, 300, nt_reg, cls_reg)
+            add('a:%s:tiny' % name, (lambda name=name: ops.elem_cases(name, 'tiny')), prop_reg, 40, 300, nt_reg, cls_reg)
     add('a:argmax', ops.ARGMAX_CASES, prop_argmax, 80, 600, nt_reg, cls_reg)
     for name in OUT_METHODS:
         add('a:out:' + name, (lambda name=name: out_cases(name)), prop_out, 40, 300, nt_reg, cls_reg, 2.0)
